@@ -316,7 +316,7 @@ def gen_expmv_case(rng, quick):
         t = [0.0, 0.0]
         tkind = rng.choice(["int0", "float0", "complex0"])
     else:
-        mag = rng.choice(MAGS[4:] if big and rng.random() < 0.7 else MAGS) * rng.uniform(0.7, 1.4)
+        mag = rng.choice(MAGS[6:] if big and rng.random() < 0.7 else MAGS) * rng.uniform(0.7, 1.4)
         ph = rng.choice(["+", "-", "+i", "-i", "c"])
         z = {"+": 1, "-": -1, "+i": 1j, "-i": -1j}.get(ph) or complex(math.cos(a := rng.uniform(0, 2 * math.pi)), math.sin(a))
         z = complex(z) * mag
@@ -446,7 +446,7 @@ def eval_expmv(ctx, case, corr=None):
     nref = np.linalg.norm(ref)
     if normalize:
         nw = np.linalg.norm(w)
-        if abs(nw - 1) > 1e-12:
+        if abs(nw - 1) > max(100 * tol, 1e-9):   # unit norm up to the orthogonality of the Krylov basis, i.e. to the solver's tolerance
             ctx.fail("oracle", "c18:expmv:normalize", f"normalize=True but the result has norm {nw!r}", case=case, concrete=True)
         ref = ref / nref
         nref = 1.0
@@ -595,11 +595,22 @@ def eval_eigs(ctx, case, corr=None):
     nF = P.normF
     ctx.count(f"{tag}:krylov:" + ("spans-sector" if m >= P.dim else "happy/invariant" if rinv <= 1e-9 * nF else "partial"))
     herm_op = case["prob"]["herm_op"]
-    # --- variational bounds for Hermitian maps (any ncv, robust against loss of orthogonality) -----------------
-    if herm_op:
+    if m > P.dim:
+        # more "basis" vectors than the sector has dimensions: the breakdown test |w| < 1e-13 did not fire at j = dim - 1
+        ctx.count(f"{tag}:krylov-beyond-dimension")
+        worst = max(float(np.linalg.norm(P.Fd @ y - th * y) / max(np.linalg.norm(y), 1e-300)) for th, y in zip(vals, ys))
+        if worst > 1e-6 * nF:
+            ctx.fail("oracle", "c18:eigs:krylov-beyond-dimension",
+                     f"eigs built {m} Krylov vectors in a sector of dimension {P.dim} (ncv={ncv}; no breakdown detected, orthonormality defect {delta:.1e}) and "
+                     f"returns value(s) {vals.tolist()} with |F y - theta y|/|y| = {worst:.2e} although the Krylov space spans the whole sector", case=case, concrete=True)
+        return
+    # --- variational bounds for Hermitian maps (any ncv; slack proportional to the measured loss of orthogonality) -----------------
+    if herm_op and delta <= 1e-3:
         lam = np.linalg.eigvalsh(P.Fd)
-        if np.max(np.abs(vals.imag)) > 1e-9 * nF or vals.real.min() < lam[0] - 1e-9 * nF or vals.real.max() > lam[-1] + 1e-9 * nF:
-            ctx.fail("oracle", "c18:eigs:variational", f"Ritz values {vals} of a Hermitian map leave the spectrum [{lam[0]}, {lam[-1]}]", case=case, concrete=True)
+        slack = (1e-9 + 10 * delta) * nF
+        if np.max(np.abs(vals.imag)) > slack or vals.real.min() < lam[0] - slack or vals.real.max() > lam[-1] + slack:
+            ctx.fail("oracle", "c18:eigs:variational", f"Ritz values {vals} of a Hermitian map leave the spectrum [{lam[0]}, {lam[-1]}] (Krylov dimension {m}, "
+                     f"orthonormality defect {delta:.1e})", case=case, concrete=True)
         ctx.count(f"{tag}:variational-checked")
     if delta > 1e-9:
         ctx.count(f"{tag}:skip:orthogonality-lost")
@@ -939,7 +950,7 @@ def run(ctx):
     ctx.extra["yastn_path"] = yastn.__file__
     t0 = time.time()
     if ctx.quick:
-        n_exp, n_eig, n_lin, budget = 230, 90, 70, 38
+        n_exp, n_eig, n_lin, budget = 300, 100, 80, 40
     else:
         n_exp, n_eig, n_lin, budget = 2500, 900, 700, 600
     contracts(ctx)
